@@ -56,10 +56,6 @@ def resStr : Res → String
   | .payload bs => s!"payload {bs.length} {toHex bs}"
   | .deleted => "deleted"
 
-def wrappedIn : Res → Bool
-  | .made _ (some v) | .did _ v | .saw v | .copied (some v) _ _ => v.wrapped
-  | _ => false
-
 /-- internal observables: representation of the node, allocator traffic of this op, live blocks -/
 def internals (w0 w1 : World) (res : Res) : String :=
   match res with
@@ -80,17 +76,11 @@ def specStep (s : Option Bytes) (op : Op) (res : Res) : String × Option Bytes :
   let served : Bool := match res with | .did r _ => r == 1 | .made ok _ => ok | _ => false
   match s, op with
   | some _, .new _ _ | some _, .newn _ | some _, .newz _ _ => ("busy", s)
-  | none, .new obj okm =>
-    (match ByteStr.newVerdict obj.length okm with
-      | .mustRefuse => ("made 0", none) | _ => ("made 1 " ++ specView obj, some obj))
-  | none, .newn k =>
-    (match ByteStr.newVerdict k true with
-      | .mustRefuse => ("made 0", none)
-      | _ => let v := claimSource.take k.toNat; ("made 1 " ++ specView v, some v))
+  | none, .new obj okm => newAns obj (ByteStr.newVerdict obj.length okm) served
+  | none, .newn k => newAns (claimSource.take k.toNat) (ByteStr.newVerdict k true) served
   | none, .newz obj okm =>
     let v := ByteStr.cPrefix obj
-    (match ByteStr.newVerdict v.length okm with
-      | .mustRefuse => ("made 0", none) | _ => ("made 1 " ++ specView v, some v))
+    newAns v (ByteStr.newVerdict v.length okm) served
   | none, _ => ("no-node", none)
   | some old, .set obj okm => setAns old obj (ByteStr.setVerdict obj.length okm) served
   | some old, .setn k => setAns old (claimSource.take k.toNat) (ByteStr.setVerdict k true) served
@@ -107,6 +97,13 @@ def specStep (s : Option Bytes) (op : Op) (res : Res) : String × Option Bytes :
   | some v, .ser => (s!"payload {v.length} {toHex v}", s)
   | some _, .del => ("deleted", none)
 where
+  newAns (val : Bytes) (vd : Verdict) (served : Bool) : String × Option Bytes :=
+    let serve := ("made 1 " ++ specView val, some val)
+    let refuse := ("made 0", none)
+    match vd with
+    | .mustServe => serve
+    | .mustRefuse => refuse
+    | .either => if served then serve else refuse
   setAns (old new : Bytes) (vd : Verdict) (served : Bool) : String × Option Bytes :=
     let serve := ("did 1 " ++ specView new, some (ByteStr.store old new))
     let refuse := ("did 0 " ++ specView old, some old)
@@ -139,7 +136,7 @@ def covOf (w0 w1 : World) (op : Op) (res : Res) : List String :=
   | _, .noNode => ["no-node"]
   | _, .busy => ["busy"]
   | .new obj _, .made ok _ => [if ok then (if obj.length < ptrSize then "new-short-min-room" else "new-inline") else "new-refused"] ++ bytesTags obj
-  | .newn _, .made ok _ => [if ok then "newn-served" else "newn-refused"]
+  | .newn k, .made ok _ => [if ok then "newn-served" else if k < 0 then "newn-refused-negative" else "newn-refused-int-guard"]
   | .newz obj _, .made ok _ => [if ok then "newz" else "newz-refused"] ++ bytesTags obj
   | .set obj _, _ => setTags obj.length ++ bytesTags obj
   | .setn k, _ => setTags k.toNat ++ ["setn"]
@@ -162,8 +159,7 @@ def step (s : St) (wds : List String) : St × Out :=
       | .fault why => ({ s with w := none }, { model := "FAULT " ++ why, spec := "no-fault" })
       | .ok (w1, res) =>
         let (sline, sv) := specStep s.spec op res
-        let tags := if wrappedIn res then ["str.len.int-truncation"] else []
         ({ w := some w1, spec := sv },
-         { model := resStr res ++ " ## " ++ internals w w1 res, spec := sline, tags := tags, cov := covOf w w1 op res })
+         { model := resStr res ++ " ## " ++ internals w w1 res, spec := sline, cov := covOf w w1 op res })
 
 end Driver.Str
